@@ -81,6 +81,14 @@ func checkC07(p *Program, r *Report) {
 	c07tables(p, r, fns)
 	c07checksum(p, r, fns)
 	c07strict(p, r, fns)
+	var roots []*ssa.Function
+	for _, n := range []string{"base58.Decode", "base58.CheckDecode", "bech32.Decode"} {
+		if fns[n] != nil {
+			roots = append(roots, fns[n])
+		}
+	}
+	canonicalInput(p, r, "C07.strict", roots)
+	base58ByteLookup(p, r, "C07.tables")
 }
 
 // constStringUses finds constant strings used as lookup tables in the functions
@@ -399,44 +407,8 @@ func c07strict(p *Program, r *Report, fns map[string]*ssa.Function) {
 		}
 		r.Add("C07.strict", FnName(fn), "every input character below 33 rejects", fn.Pos(), lowOK, "loop over the whole input")
 		r.Add("C07.strict", FnName(fn), "every input character above 126 rejects", fn.Pos(), highOK, "loop over the whole input")
-		// single case: the region where input ≠ ToLower(input) and input ≠ ToUpper(input) rejects
-		okCase := false
-		var lowerNE, upperNE []*ssa.BasicBlock // blocks ending in If(input != lower/upper)
-		for _, b := range fn.Blocks {
-			iff, ok := lastInstr(b).(*ssa.If)
-			if !ok {
-				continue
-			}
-			bo, ok := iff.Cond.(*ssa.BinOp)
-			if !ok || bo.Op != token.NEQ {
-				continue
-			}
-			for _, pr := range [][2]ssa.Value{{bo.X, bo.Y}, {bo.Y, bo.X}} {
-				if pr[0] != ssa.Value(param) {
-					continue
-				}
-				if c, ok := pr[1].(*ssa.Call); ok && len(c.Call.Args) == 1 && c.Call.Args[0] == ssa.Value(param) {
-					if staticCalleeIs(&c.Call, "strings.ToLower") {
-						lowerNE = append(lowerNE, b)
-					}
-					if staticCalleeIs(&c.Call, "strings.ToUpper") {
-						upperNE = append(upperNE, b)
-					}
-				}
-			}
-		}
-		for _, lb := range lowerNE {
-			for _, ub := range upperNE {
-				// nested: ub reached only through lb's true edge (or vice versa), and ub's true edge rejects
-				for _, pr := range [][2]*ssa.BasicBlock{{lb, ub}, {ub, lb}} {
-					outer, inner := pr[0], pr[1]
-					if outer.Succs[0] == inner && len(inner.Preds) == 1 && !canReachAccept(fn, inner.Succs[0]) {
-						okCase = true
-					}
-				}
-			}
-		}
-		r.Add("C07.strict", FnName(fn), "mixed-case input rejects", fn.Pos(), okCase, "input ≠ lower(input) ∧ input ≠ upper(input) leads only to error returns")
+		okCase, howCase := mixedCaseRejects(p, fn)
+		r.Add("C07.strict", FnName(fn), "mixed-case input rejects", fn.Pos(), okCase, howCase)
 	}
 	// ConvertBits: without padding, leftover bits that are non-zero or too many reject
 	if cb := fns["bech32.ConvertBits"]; cb != nil {
